@@ -393,8 +393,40 @@ let check_case (c : case) (findings : Buffer.t) : int * int * bool =
        leave held on the virtual keyboard against the specification mapper for the inputs the transcript implies *)
     let dtr = List.map (fun (_, r) -> (r.call, (match r.resp with Some x -> x | None -> RUnit))) answered in
     let aidx = Array.of_list (List.map fst answered) in
+    (* did the loop write exactly what its (real) Mapper returned - every non-empty answer of the real Mapper written as
+       the next call, every send that is not a timer chord being such an answer?  Then a disagreement between the
+       device and the MODEL mapper is the mapper's (mapper engine, class MAPPER_MODEL here), not the loop's. *)
+    let faithful =
+      Hashtbl.length c.rm > 0
+      && Hashtbl.fold (fun i evs acc -> acc && (evs = [] || (i + 1 < n && (match c.recs.(i + 1).call with CSend e -> e = evs | _ -> false)))) c.rm true
+      && (let ok = ref true in
+          Array.iteri (fun j r ->
+              match r.call with
+              | CSend _ ->
+                let after_tick = j > 0 && (match c.recs.(j - 1).call, c.recs.(j - 1).resp with CPoll _, Some (RPoll PTimedOut) -> true | _, _ -> false) in
+                (* a timer chord must at least have the shape of one: keys pressed, then released in reverse order *)
+                let chord_shaped evs =
+                  let nn = List.length evs in
+                  nn mod 2 = 0 &&
+                  (let rec take k l = if k = 0 then [] else (match l with [] -> [] | x :: t -> x :: take (k - 1) t) in
+                   let rec drop k l = if k = 0 then l else (match l with [] -> [] | _ :: t -> drop (k - 1) t) in
+                   let ps = take (nn / 2) evs and rs = drop (nn / 2) evs in
+                   List.for_all (fun e -> match e with Pressed _ -> true | _ -> false) ps
+                   && rs = List.rev_map (fun e -> match e with Pressed k -> Released k | x -> x) ps) in
+                if after_tick then (match r.call with CSend evs -> if not (chord_shaped evs) then ok := false | _ -> ())
+                else if not (transported j) then ok := false
+              | _ -> ()) c.recs;
+          !ok) in
     List.iter (fun (idx, cl) ->
         let name = device_clause_name cl in
+        if faithful then begin
+          if not (Hashtbl.mem seen ("MM" ^ name)) then begin
+            Hashtbl.add seen ("MM" ^ name) ();
+            define ();
+            Buffer.add_string findings
+              (Printf.sprintf "DIFF case=%s class=MAPPER_MODEL at=%d impl=the_loop_wrote_what_the_real_mapper_returned model=%s_of_the_model_mapper\n" c.id (aidx.(int_of_n idx)) name)
+          end
+        end else
         if not (Hashtbl.mem seen name) then begin
           Hashtbl.add seen name ();
           define ();
